@@ -11,9 +11,11 @@ current time.  Deleting an absent mode reports NotFound unless allow-missing is 
 succeeds.
 
 The theorems are about `step` / `run` of `Electric.lean` (the model of `electricpb.Model` and of the
-ElectricApi / MemorySettingsApi servers after the fixes 6953a94 and 7f1dc6a, tied to /repo by the
+ElectricApi / MemorySettingsApi servers after the fixes 6953a94, 7f1dc6a and 2b5cf2c, tied to /repo by the
 harness on every run) and about the interleaving semantics of `Conc.lean`.  `Op` contains the Model API
-operations and the server RPCs, so "ALL op sequences" mixes both levels freely.
+operations (with their write options: upsert, expect-absent, expected value) and the server RPCs, so "ALL op
+sequences" mixes both levels freely.  `PropsMore.lean` has the theorems about the clock under concurrency,
+rejected operations, upserts and checked configurations.
 -/
 namespace ScVerif.C19
 
